@@ -238,7 +238,7 @@ impl<'ast> Visit<'ast> for LoopFinder {
                 }
                 if fm.method == "map" && fm.args.len() == 1 {
                     if let (syn::Expr::Closure(c), syn::Expr::MethodCall(it)) = (&fm.args[0], &*fm.receiver) {
-                        if it.method == "iter" && it.args.is_empty() && c.inputs.len() == 1 && matches!(c.inputs[0], syn::Pat::Ident(_)) {
+                        if it.method == "iter" && it.args.is_empty() && c.inputs.len() == 1 && matches!(c.inputs[0], syn::Pat::Ident(_) | syn::Pat::Reference(_)) {
                             let mut ef = EscapeFinder::default();
                             ef.visit_expr(&c.body);
                             if ef.escapes == 0 {
